@@ -5,6 +5,7 @@ use std::io::{BufRead, Write};
 use std::panic::{catch_unwind, AssertUnwindSafe};
 
 mod ops_codec;
+mod ops_coord;
 mod ops_gossip;
 mod ops_locks;
 mod ops_misc;
@@ -37,6 +38,9 @@ fn dispatch(req: &Value) -> Value {
         return v;
     }
     if let Some(v) = ops_locks::handle(op, req) {
+        return v;
+    }
+    if let Some(v) = ops_coord::handle(op, req) {
         return v;
     }
     json!({"error": format!("unknown op {op}")})
